@@ -137,7 +137,7 @@ int main(int argc, char **argv) {
       emit("SUMMARY", counters_to_json(cnt));
       cnt = Counters();
       uint64_t *pa = probe_array();
-      for (int k = 0; k < 64; k++) pa[k] = 0;
+      for (int k = 0; k < 256; k++) pa[k] = 0;
     }
   }
   emit("SUMMARY", counters_to_json(cnt));
